@@ -184,6 +184,7 @@ def gen_signable(rng, max_in=3):
         kind = rng.choice(KINDS)
         d = make_input(rng, kind, w, others, rng.randrange(0, 50))
         d["seq"] = rng.choice([0xFFFFFFFF, 0xFFFFFFFD, 0, 1])
+        d["v2order"] = rng.randrange(3)
         sh = rng.choice([None, None, None, 0, 1, 1, 2, 3, 0x81, 0x82, 0x83])
         if sh == 0 and d["algo"] != "taproot" and rng.random() < 0.7:
             sh = 1
@@ -211,7 +212,10 @@ def psbt_bytes(g):
     for i in ins:
         pairs = list(i["pairs"])
         if version == 2:
-            pairs += [(b"\x0e", i["txid"][::-1]), (b"\x0f", i["vout"].to_bytes(4, "little")), (b"\x10", i["seq"].to_bytes(4, "little"))]
+            f = [(b"\x0e", i["txid"][::-1]), (b"\x0f", i["vout"].to_bytes(4, "little")), (b"\x10", i["seq"].to_bytes(4, "little"))]
+            o = i.get("v2order", 0)
+            f = [f[0], f[2], f[1]] if o == 1 else ([f[2], f[0], f[1]] if o == 2 else f)
+            pairs = (f + pairs) if o else (pairs + f)
         b += b"".join(kv(k, v) for k, v in pairs) + b"\x00"
     for (val, spk) in outs:
         if version == 2:
